@@ -85,9 +85,24 @@ def doc_verdict(records):
     return out
 
 
+_FEED = [0]
+
+
 def verdicts(records):
+    """the records are handed to the aggregator in one of four ways in turn: a list, a one-shot generator (a streamed file),
+    an iterator, record by record - the verdicts depend on the record set only"""
     agg = TraceAggregator()
-    agg.ingest_many(records)
+    _FEED[0] += 1
+    way = _FEED[0] % 4
+    if way == 0:
+        agg.ingest_many(records)
+    elif way == 1:
+        agg.ingest_many(r for r in list(records))
+    elif way == 2:
+        agg.ingest_many(iter(list(records)))
+    else:
+        for r in records:
+            agg.ingest(r)
     res = {}
     for run in list(agg.iter_runs()):
         a = agg.finalize_run(run.run_id)
